@@ -866,3 +866,54 @@ Proof.
   - intros x. exact (default_exact_sets n m A b R c Qo S HR HS x Hex).
   - intros x y. exact (default_exact_value n m A b R c Qo S HR HS x y).
 Qed.
+
+(* the three formulations: structure of the objective + their own S + 1 *)
+Theorem arc_default_exact (costs grid : list Z) (vars : list avar) m A b R :
+  NoDup vars ->
+  (forall a s t, In (a, s, t) vars -> (a < length costs)%nat /\ In s grid /\ In t grid) ->
+  R_nonneg (length vars) R ->
+  (exists z, Zbinary (length vars) z /\ Zfeasible m (length vars) A b R z) ->
+  let n := length vars in
+  let c := arc_obj costs vars in
+  let S := S_arc costs (length grid) in
+  (forall x, is_default_min n m A b R c (fun _ _ => 0) S x <-> is_constrained_opt n m A b R c (fun _ _ => 0) x) /\
+  (forall x y, is_default_min n m A b R c (fun _ _ => 0) S x -> is_constrained_opt n m A b R c (fun _ _ => 0) y ->
+               default_value n m A b R c (fun _ _ => 0) S x = Zobjective n c (fun _ _ => 0) y).
+Proof.
+  intros Hnd Hin HR Hex. cbv zeta.
+  apply default_exact; [exact HR | apply S_arc_bounds_coeff_sum; assumption | exact Hex].
+Qed.
+
+Theorem path_default_exact (rc : list Z) m A b R :
+  R_nonneg (length rc) R ->
+  (exists z, Zbinary (length rc) z /\ Zfeasible m (length rc) A b R z) ->
+  let n := length rc in
+  let c := Zvec_of rc in
+  let S := S_path rc in
+  (forall x, is_default_min n m A b R c (fun _ _ => 0) S x <-> is_constrained_opt n m A b R c (fun _ _ => 0) x) /\
+  (forall x y, is_default_min n m A b R c (fun _ _ => 0) S x -> is_constrained_opt n m A b R c (fun _ _ => 0) y ->
+               default_value n m A b R c (fun _ _ => 0) S x = Zobjective n c (fun _ _ => 0) y).
+Proof.
+  intros HR Hex. cbv zeta.
+  apply default_exact; [exact HR | rewrite S_path_is_coeff_sum; apply Z.le_refl | exact Hex].
+Qed.
+
+Theorem seq_default_exact (n : nat) (L : Z) (V : nat) (costs vcs : list Z)
+        (lin : list lin_entry) (quad : list quad_entry) m A b R :
+  0 <= L -> length vcs = V ->
+  NoDup (seq_triples lin quad) ->
+  (forall v si a, In (v, si, a) (seq_triples lin quad) ->
+                  (v < V)%nat /\ Z.of_nat si + 1 < L /\ (a < length costs)%nat) ->
+  (forall e, In e lin -> 0 <= snd e <= 1) ->
+  R_nonneg n R ->
+  (exists z, Zbinary n z /\ Zfeasible m n A b R z) ->
+  let c := seq_c costs vcs lin in
+  let Qo := seq_Qo costs vcs quad in
+  let S := S_seq L costs vcs in
+  (forall x, is_default_min n m A b R c Qo S x <-> is_constrained_opt n m A b R c Qo x) /\
+  (forall x y, is_default_min n m A b R c Qo S x -> is_constrained_opt n m A b R c Qo y ->
+               default_value n m A b R c Qo S x = Zobjective n c Qo y).
+Proof.
+  intros HL HV Hnd Hb Hfv HR Hex. cbv zeta.
+  apply default_exact; [exact HR | apply (S_seq_bounds_coeff_sum n L V); assumption | exact Hex].
+Qed.
